@@ -721,6 +721,9 @@ class _ExprMixin:
                         all(isinstance(i[1], Const) for i in o.items):
                     r = any(i[1] == a for i in o.items)
                     return Const(r if op == "in" else not r)
+                if self.is_dispatch_table(o):
+                    r = or_(*[compare("eq", a, k) for k, _, _, _ in self.dedup(o)])
+                    return r if op == "in" else not_(r)
                 if isinstance(o, DictObj):
                     # membership in a cache-like dict: opaque but keyed on object
                     return Op(op, a, b2)
@@ -874,6 +877,21 @@ class _ExprMixin:
                     return ite(g, v, Op("getitem", base, idx))
                 if o.concrete() and isinstance(idx, Const):
                     return Op("keyerror", base, idx)
+                if self.is_dispatch_table(o):
+                    # small table of code objects (classes, functions, tuples of them) indexed by a data value:
+                    # one alternative per key, so that what is called / stored next is known
+                    ents = self.dedup(o)
+                    none_of = and_(*[compare("ne", idx, k) for k, _, _, _ in ents])
+                    self.guard.append(none_of)
+                    missing = self.feasible()
+                    self.guard.pop()
+                    res = Undef("KeyError")
+                    if missing:
+                        self.event("raise", (Op("call:KeyError", idx),), node)
+                        self.note_raise(and_(self.local_guard(state=True), none_of))
+                    for k, v, _, _ in reversed(ents):
+                        res = ite(compare("eq", idx, k), v, res)
+                    return res
                 if o.concrete() and o.entries:
                     # table lookup with symbolic key: keep table identity
                     return Op("getitem", base, idx)
@@ -881,6 +899,17 @@ class _ExprMixin:
         if isinstance(base, Undef) or (isinstance(base, Const) and base.v is None):
             return Undef()
         return Op("getitem", base, idx)
+
+    def is_dispatch_table(self, o):
+        if not (isinstance(o, DictObj) and o.concrete() and 0 < len(o.entries) <= 12):
+            return False
+
+        def code(v, depth=0):
+            if isinstance(v, (FuncV, ClassV)):
+                return True
+            lo = self.as_list(v)
+            return lo is not None and depth < 2 and any(code(i[1], depth + 1) for i in lo.items)
+        return any(code(v) for _, v, _, _ in o.entries)
 
     def ev_ListComp(self, n):
         return self.comprehension(n, "list")
@@ -2459,7 +2488,16 @@ class _ExtMixin:
         return Op("ceil", a[0])
 
     def x_setattr(self, a, k, n):
-        name = self.fold_under_guard(a[1])
+        name = self.simp(self.fold_under_guard(a[1]))
+        if isinstance(name, Ite):
+            for c, alt in ((name.c, name.a), (not_(name.c), name.b)):
+                self.guard.append(c)
+                if self.feasible() and not isinstance(alt, Undef):
+                    self.x_setattr([a[0], alt, a[2]], k, n)
+                self.guard.pop()
+            return NONE
+        if isinstance(name, Op) and name.op == "keyerror":
+            return NONE      # this path raised KeyError before the store
         if is_const(name, str):
             self.set_attr(a[0], name.v, a[2], n)
             return NONE
@@ -2516,6 +2554,15 @@ class _ExtMixin:
                 t = self.truth(it[2])
                 hits.append(Op("exists", Const(it[1].lid), and_(it[3], t if want else not_(t))))
         return or_(*hits)
+
+    def x_sum(self, a, k, n):
+        items = self.seq_items(a[0], n)
+        if items is None or any(it[0] != "v" or (isinstance(it[1], Op) and it[1].op == "splat") for it in items):
+            return Op("call:sum", *a)
+        total = a[1] if len(a) > 1 else k.get("start", Const(0))
+        for it in items:
+            total = add(total, it[1] if it[2] == TRUE else ite(it[2], it[1], Const(0)))
+        return total
 
     def x_any(self, a, k, n):
         q = self._quant(a, n, True)
